@@ -140,6 +140,10 @@ class ShiftedServer(QueuedResource):
         # On first real event, schedule the first shift change
         if not self._initialized:
             self._initialized = True
+            # Boundaries that passed before the first item arrived were never
+            # seen (the shift-change chain starts here): take the capacity the
+            # schedule gives for *now*, not the one for t=0.
+            self._current_capacity = self.schedule.capacity_at(self.now.to_seconds())
             next_event = self._schedule_next_shift()
             result = super().handle_event(event)
             if next_event and isinstance(result, list):
